@@ -105,6 +105,8 @@ func e6Sources(c *Ctx, nfiles int) []srcFile {
 	}
 	files = append(files, srcFile{pkg: "p", name: "shared.go", text: e6SharedPlain})
 	files = append(files, srcFile{pkg: "p", name: "uses_shared.go", text: e6UsesShared})
+	// a file with a blank import of the user (its bytes must not depend on test files sitting next to it)
+	files = append(files, srcFile{pkg: "p", name: "blank_import.go", text: "package p\n\nimport (\n\t_ \"image/gif\"\n\n\t. \"github.com/goghcrow/go-co\"\n)\n\n// Frames yields 1, 2.\nfunc Frames() Iter[int] {\n\tfor i := 1; i < 3; i++ {\n\t\tYield(i)\n\t}\n\treturn nil\n}\n"})
 	// files that use the API but declare NO generator (they only consume iterators), sorting before and after
 	// all other files of the package: what the tool keeps per file must not leak from the files visited before
 	for _, pre := range []string{"aa", "zz"} {
